@@ -15,6 +15,7 @@ fill it (see Drv/Redirect.lean for the idea), then one line per operation:
   environ <scheme> <bytes>                           → need | err <E> | ok <n> (key s:<text>|b:<bytes>)*
   valetenviron <servant ~|0|1> <scheme> <bytes>      → the same for a Valet constructed with servant= / scheme=
   server <servant ~|0|1> <scheme> <port|~>           → err ValueError | ok <scheme> <secured> <port>
+  connenviron <servant> <scheme> <bytes>+            → environment held for a connection after these requests (oldest first)
   respond <chunkable 0|1> <date> (~ | <status> <n> (k v)*) items…   → ok <ended 0|1> <bytes> | err <E>
         items: Y <bytes> | S <bytes> | X | E <status> <reason> <title> <detail> <fault|~> <n> (k v)*
   parseresp <method> <closed 0|1> <bytes>            → need | err <E> | ok …response fields… R <rest>
@@ -228,6 +229,26 @@ def step (t : Table) (line : String) : Table × String :=
         match valetEnviron sv scheme q with
         | .error e => fmtErr e
         | .ok env => "ok " ++ toString env.length ++ String.join (env.map (fun kv => " " ++ hex kv.1 ++ " " ++ fmtEVal kv.2)))))
+     | _, _, _ => (t, "bad-op"))
+  | "connenviron" :: servant :: scheme :: msgs =>
+    -- the environment held for a connection after the requests `msgs` (each a complete request message), oldest first
+    let sv? : Option (Option Bool) := if servant == "~" then some none else if servant == "1" then some (some true)
+      else if servant == "0" then some (some false) else none
+    let qs? : Option (List Request) := msgs.foldr (fun m acc =>
+      match acc, hexToBytes? m with
+      | some l, some b => (match parseRequest t.std b with
+                           | .done q _ => some (q :: l)
+                           | _ => none)
+      | _, _ => none) (some [])
+    (match sv?, str? scheme, qs? with
+     | some sv, some scheme, some qs =>
+       (match serverScheme sv scheme with
+        | .error e => (t, fmtErr e)
+        | .ok (sch, _, _) =>
+          (match serveConnection sch qs with
+           | none => (t, "need")
+           | some env => (t, guard ("ok " ++ toString env.length ++
+               String.join (env.map (fun kv => " " ++ hex kv.1 ++ " " ++ fmtEVal kv.2))))))
      | _, _, _ => (t, "bad-op"))
   | ["server", servant, scheme, port] =>
     let sv? : Option (Option Bool) := if servant == "~" then some none else if servant == "1" then some (some true)
